@@ -141,13 +141,15 @@ bool Component::ComponentImpl::performTestWithHistory(History &history, std::vec
         history.push_back(h);
         componentsOnPath.push_back(mComponent);
         bool result = importedComponent->pFunc()->performTestWithHistory(history, componentsOnPath, importedComponent, type);
-        // An imported component may encapsulate components of its own.
+        history.pop_back();
+        // An imported component may encapsulate components of its own: they
+        // belong to the importing model, so what they import is not reached
+        // through this import.
         for (size_t i = 0; result && (i < mComponent->componentCount()); ++i) {
             auto currentComponent = mComponent->component(i);
             result = currentComponent->pFunc()->performTestWithHistory(history, componentsOnPath, currentComponent, type);
         }
         componentsOnPath.pop_back();
-        history.pop_back();
         return result;
     }
 
